@@ -86,7 +86,8 @@ pub fn run(ctx: &mut Ctx) -> Report {
 		if portable {
 			// what the crypto-less build can express: explicit serial, pre-specified key identifier
 			p.serial = Some(vec![(k % 128) as u8, (k / 128) as u8, 7]);
-			p.kid = Kid::Pre(vec![k as u8; 20]);
+			// pre-specified key identifiers of every length class (empty, short, 20, longer than a digest)
+			p.kid = Kid::Pre(vec![k as u8; [20usize, 20, 1, 32, 0, 21, 64, 19][k % 8]]);
 		}
 		let subj = format!("fx-{}", keyset[k % 4].0);
 		let iss = if k % 2 == 0 { None } else { Some((k / 2) % 4) };
@@ -124,7 +125,19 @@ pub fn run(ctx: &mut Ctx) -> Report {
 	// the same fixed keys through every key-loading entry point and every algorithm they fit:
 	// the crypto builds must agree on the outcome and on the bytes, and what is signed verifies
 	#[cfg(not(feature = "nocrypto"))]
-	for (name, alg, der) in &keyset {
+	let loader_keys: Vec<(&str, &'static SignatureAlgorithm, Vec<u8>)> = {
+		let mut v = keyset.clone();
+		// RSA keys of the size classes both back ends sign with (ring holds private keys of up to
+		// 4096 bits; larger ones are, like P-521, outside what the two builds have in common)
+		for (n, f) in [("rsa3072", "rsa3072.pk8"), ("rsa4096", "rsa4096.pk8")] {
+			if let Ok(d) = std::fs::read(format!("/verif/harness/fixtures/{}", f)) {
+				v.push((n, &PKCS_RSA_SHA256, d));
+			}
+		}
+		v
+	};
+	#[cfg(not(feature = "nocrypto"))]
+	for (name, alg, der) in &loader_keys {
 		let fits: Vec<&'static SignatureAlgorithm> = if name.starts_with("rsa") { vec![&PKCS_RSA_SHA256, &PKCS_RSA_SHA384, &PKCS_RSA_SHA512] } else { vec![*alg] };
 		for a in fits {
 			for (loader, res) in crate::props::c01::loaded_keys(a, der) {
